@@ -52,6 +52,7 @@ void (*sched_on_wait_entry)(int tid, struct env_wait *w);
 void (*sched_on_wait_return)(int tid, struct env_wait *w, int n);
 long sched_max_points;
 int sched_signal_atomic = 1;
+int sched_signal_defer;
 int sched_fault_eintr;
 int sched_no_more_choices;
 long sched_points;
@@ -316,7 +317,10 @@ static void point(int op, void *obj, int target, const char *what)
 	T[me].what = what;
 	for (;;) {
 		decide(me);
-		if (T[me].nsig && !T[me].in_wait) {
+		if (T[me].nsig && !T[me].in_wait && sched_signal_defer && !sched_no_more_choices &&
+		    !sigismember(&T[me].mask, T[me].sigq[0]) && mc_choose(2, MC_SCHED, "sig-later")) {
+			/* a signal arrives when it arrives: it may also land at one of this thread's later points */
+		} else if (T[me].nsig && !T[me].in_wait) {
 			/* the handler has scheduling points of its own: they must not clobber this pending operation */
 			T[me].op = OP_RUN;
 			deliver_signals(me);
